@@ -5,6 +5,7 @@ use crate::val::Val;
 pub fn dispatch(kind: u32, v: &Val) -> Option<Val> {
     match kind {
         301 => Some(run_slice(v)),
+        303 => Some(run_slice_boxed(v)),
         _ => None,
     }
 }
@@ -17,5 +18,31 @@ pub fn run_slice(v: &Val) -> Val {
     let mut sink = LogSink::new(decode_reply(v.fld(3)));
     let mut searcher = searcher_builder(&cfg).build();
     let r = searcher.search_slice(&m, &input, &mut sink);
+    result_val(r, sink)
+}
+
+/// kind 303: the same search with the sink handed over as `&mut Box<dyn Sink>` — through the forwarding
+/// impls of sink.rs (`impl Sink for &mut S`, `impl Sink for Box<S>`); every call must arrive unchanged.
+pub fn run_slice_boxed(v: &Val) -> Val {
+    use grep_searcher::Sink;
+    let cfg = decode_cfg(v.fld(0));
+    let m = decode_matcher(&cfg, v.fld(1));
+    let input = v.fld(2).bytes();
+    let shared = std::rc::Rc::new(std::cell::RefCell::new(LogSink::new(decode_reply(v.fld(3)))));
+    struct Fwd(std::rc::Rc<std::cell::RefCell<LogSink>>);
+    impl Sink for Fwd {
+        type Error = std::io::Error;
+        fn matched(&mut self, s: &grep_searcher::Searcher, m: &grep_searcher::SinkMatch<'_>) -> Result<bool, std::io::Error> { self.0.borrow_mut().matched(s, m) }
+        fn context(&mut self, s: &grep_searcher::Searcher, c: &grep_searcher::SinkContext<'_>) -> Result<bool, std::io::Error> { self.0.borrow_mut().context(s, c) }
+        fn context_break(&mut self, s: &grep_searcher::Searcher) -> Result<bool, std::io::Error> { self.0.borrow_mut().context_break(s) }
+        fn binary_data(&mut self, s: &grep_searcher::Searcher, o: u64) -> Result<bool, std::io::Error> { self.0.borrow_mut().binary_data(s, o) }
+        fn begin(&mut self, s: &grep_searcher::Searcher) -> Result<bool, std::io::Error> { self.0.borrow_mut().begin(s) }
+        fn finish(&mut self, s: &grep_searcher::Searcher, f: &grep_searcher::SinkFinish) -> Result<(), std::io::Error> { self.0.borrow_mut().finish(s, f) }
+    }
+    let mut boxed: Box<dyn Sink<Error = std::io::Error>> = Box::new(Fwd(shared.clone()));
+    let mut searcher = searcher_builder(&cfg).build();
+    let r = searcher.search_slice(&m, &input, &mut boxed);
+    drop(boxed);
+    let sink = std::rc::Rc::try_unwrap(shared).ok().expect("sole owner").into_inner();
     result_val(r, sink)
 }
